@@ -253,6 +253,27 @@ static void judge(Ctx& ctx, const Case& c, bool from_replay) {
       return;
     }
   }
+  // ---- the closed-only overloads with open subjects loaded: Execute(ct, fr, Paths64&) and Execute(ct, fr, PolyTree64&)
+  // have nowhere to put open pieces; their closed solution must be the one the four-argument call returns
+  {
+    Paths64 only_c; PolyTree64 only_t; bool oka, okb;
+    { Clipper64 k; setup(k, true); oka = k.Execute((ClipType)ct, (FillRule)fr, only_c); }
+    { Clipper64 k; setup(k, true); okb = k.Execute((ClipType)ct, (FillRule)fr, only_t); }
+    ctx.evaluated(2);
+    if (!oka || !okb) { ctx.violation("C05.execute_false", { !oka ? "closed_only_paths_overload" : "closed_only_tree_overload" }, c, "Execute returned false"); return; }
+    ctx.count("closed_only_overloads_checked");
+    Paths64 ka = canon_paths(only_c), kb = canon_paths(PolyTreeToPaths64(only_t));
+    if (!same_paths(ka, k1)) {
+      ctags.insert(ctags.begin(), "closed_only_paths_overload");
+      ctx.violation("C05.closed_region_changed", ctags, c, "Execute(ct, fr, Paths64&) with open subjects loaded returns " + std::to_string(only_c.size()) + " closed paths that differ from the " + std::to_string(solc.size()) + " closed paths of Execute(ct, fr, closed, open)");
+      return;
+    }
+    if (!same_paths(kb, k2)) {
+      ctags.insert(ctags.begin(), "closed_only_tree_overload");
+      ctx.violation("C05.closed_region_changed", ctags, c, "Execute(ct, fr, PolyTree64&) with open subjects loaded returns polygons that differ from those of Execute(ct, fr, tree, open)");
+      return;
+    }
+  }
   if (!from_replay) ctx.note_case(c, ex.crossings > 0);
   if (ex.crossings == 0) ctx.count("cases_without_crossing_of_deciding_edges");
 }
@@ -477,7 +498,7 @@ void vf_replay(Ctx& ctx, const Case& c) { judge(ctx, c, true); }
 
 void vf_end(Ctx& ctx) {
   ctx.count("gp_candidates_tried", g_gc.tries);
-  ctx.count("gp_candidates_rejected", g_gc.rejected); ctx.count("gp_flat_dense_scanline_scenes", g_gc.flat); ctx.count("gp_scenes_with_crossing_a_hair_past_a_scanline", g_gc.tie);
+  ctx.count("gp_candidates_rejected", g_gc.rejected); ctx.count("gp_flat_dense_scanline_scenes", g_gc.flat); ctx.count("gp_scenes_with_crossing_a_hair_past_a_scanline", g_gc.tie); ctx.count("gp_scenes_with_a_corner_whose_cross_product_is_an_exact_power_of_two", g_gc.wrap);
   ctx.count("open_candidates_tried", g_open_tries);
   ctx.count("open_candidates_rejected", g_open_rejected);
 }
